@@ -1738,6 +1738,9 @@ impl Compiler {
                 args_start,
                 argc,
             });
+            if let Some(init) = self.derived_ctor_init.clone() {
+                self.compile_derived_ctor_init(&init)?;
+            }
             return Ok(());
         }
 
